@@ -17,7 +17,7 @@ PYTH = [(3, 4, 5), (5, 12, 13), (8, 15, 17), (7, 24, 25), (20, 21, 29), (12, 35,
 def gen_cases(rng, n):
     cases = []
     for k in range(n):
-        kind = rng.choice(["pyth", "pyth", "axis", "free", "free"])
+        kind = rng.choice(["pyth", "pyth", "axis", "free", "free"]) if k % 8 != 5 else "near"
         scale = Fr(rng.choice(["0.001", "0.01", "0.37", "1", "2.5", "10", "100", "1234.5", "100000"]))
         if kind == "pyth":
             a, b, h = rng.choice(PYTH)
@@ -26,6 +26,11 @@ def gen_cases(rng, n):
             dx, dy = a * rng.choice([1, -1]) * scale, b * rng.choice([1, -1]) * scale
         elif kind == "axis":
             dx, dy = rng.choice([(1, 0), (-1, 0), (0, 1), (0, -1)])
+            dx, dy = dx * scale, dy * scale
+        elif kind == "near":
+            # almost, but not quite, parallel to an axis: a cambered beam, a column a hair out of plumb
+            tiny = Fr(rng.choice(["0.00001", "0.0000007", "0.00000003", "0.000000002", "0.0000000001"])) * rng.choice([1, -1])
+            dx, dy = rng.choice([(1, tiny), (-1, tiny), (tiny, 1), (tiny, -1)])
             dx, dy = dx * scale, dy * scale
         else:
             dx = Fr(rng.randint(-9999, 9999), 1000) * scale
